@@ -113,9 +113,11 @@ def _check_matrix(world, obj, part, n_rows, ctx, widened):
             return
     try:
         obj["<no such term>"]
-        world.fail("D", "getitem-unknown-accepted", part, "indexing by an unknown term name was accepted", ctx)
+        accepted = True
     except Exception:  # noqa: BLE001
-        pass
+        accepted = False
+    if accepted:
+        world.fail("D", "getitem-unknown-accepted", part, "indexing by an unknown term name was accepted", ctx)
     if not _eq(np.asarray(obj), M):
         world.fail("D", "asarray", part, "np.asarray(obj) differs from design_matrix", ctx)
     if part == "common":
